@@ -776,6 +776,13 @@ func runHistory(c *Ctx, focus string) {
 			sibBefore = literalSiblings(liveBefore)
 		}
 		kind, touched, _ := h.step()
+		if kind == "stop" && focus == "C03" && !c.Violated() {
+			// the router and the model disagree about a Handle call (C17's business): the history ends here, but whatever the
+			// call was, the routes that were live before it are still listed
+			if msg := h.s.CompareRoutes(); msg != "" {
+				h.violate("after a Handle call the model cannot follow: "+msg, nil)
+			}
+		}
 		if kind == "stop" || c.Violated() {
 			break
 		}
